@@ -263,7 +263,7 @@ Definition msg_typed (m : policy_msg) : Prop :=
 
 Lemma policy_handle_safe s m s' : PolSafe s -> msg_typed m -> policy_handle s m = Ok s' -> PolSafe s' /\ pol_height s' = pol_height s.
 Proof.
-  intros (HL & HP & HR & HD) Ht H. destruct m as [ps|ps|g el st en|b r e|mx ep a|c]; cbn [policy_handle msg_typed] in *.
+  intros (HL & HP & HR & HD) Ht H. destruct m as [ps|ps|g el st en|b r e|mx ep a|c|d rs]; cbn [policy_handle msg_typed] in *.
   - destruct (forallb rp_valid ps) eqn:Ev; [|discriminate]. injection H as <-. split; [|reflexivity].
     split; [exact HL|]. split; [exact HP|]. split; [|exact HD].
     rewrite forallb_forall in Ev. rewrite Forall_forall in Ht.
@@ -279,6 +279,17 @@ Proof.
     split; [|exact E4]. unfold PolSafe. rewrite E1, E2, E3. auto.
   - destruct (modify_lp_rates_safe _ _ _ Ht HL H) as (S & E1 & E2 & E3 & E4).
     split; [|exact E4]. unfold PolSafe. rewrite E1, E2, E3. auto.
+  - destruct (fee_rate_ok d && forallb fee_rate_ok rs); [|discriminate]. injection H as <-. split; [|reflexivity]. exact (conj HL (conj HP (conj HR HD))).
+Qed.
+
+(* swap-fee parameters: an accepted message carries only rates in [0,1] *)
+Lemma swap_fee_accepted s d rs s' : policy_handle s (PUpdateSwapFee d rs) = Ok s' ->
+  s' = s /\ 0 <= d <= PREC /\ Forall (fun r => 0 <= r <= PREC) rs.
+Proof.
+  cbn [policy_handle]. destruct (fee_rate_ok d && forallb fee_rate_ok rs) eqn:E; [|discriminate]. intros [= <-].
+  apply andb_prop in E. destruct E as [E1 E2]. unfold fee_rate_ok in E1. apply andb_prop in E1. destruct E1 as [A B].
+  apply Z.leb_le in A, B. split; [reflexivity|]. split; [lia|]. apply Forall_forall. intros r Hr. rewrite forallb_forall in E2.
+  specialize (E2 r Hr). unfold fee_rate_ok in E2. apply andb_prop in E2. destruct E2 as [C D]. apply Z.leb_le in C, D. lia.
 Qed.
 
 Lemma policy_deliver_safe s m : PolSafe s -> msg_typed m -> PolSafe (fst (policy_deliver s m)).
